@@ -49,7 +49,12 @@ REQUIRED_PDF = [PP + n for n in [
     "multiply_componentAlpha_correct", "multiplyUnifiedPixel_mask_elision", "compositePixel_multiply",
 ]]
 
-RULE = ("1-row composites of 1..19 pixels through pixman_image_composite32, once per implementation chain (default; "
+RULE = ("wide rows (12 per stream in the quick tier: w x h rectangles, w in 2040..2050 / 3000 / 4085..4096 = around the width "
+        "2045 at which general_composite_rect's scanline buffers leave its 24 KiB stack buffer, h 1..2, taken at different non-zero "
+        "x offsets and y offsets 0..2 of larger source / mask / destination images, x-varying pixels, mask none / unified a8 / "
+        "component-alpha a8r8g8b8 / other, every pixel compared with the model and the Spec oracle, destination outside the "
+        "rectangle must keep its pattern) plus "
+        "1-row composites of 1..19 pixels through pixman_image_composite32, once per implementation chain (default; "
         "PIXMAN_DISABLE='fast mmx sse2 ssse3'), same requests under both: operator from the 21 with an 8-bit combiner "
         "(75% Porter-Duff/ADD), mask none / unified (a8 or other format) / solid / component-alpha (a8r8g8b8 or other) / "
         "component-alpha solid, source bits or solid, 21 formats of <= 8 bits per channel (45% a8r8g8b8), pixels: "
